@@ -19,20 +19,20 @@ def Un.new (T : Tunables) (maxK : Nat) : Option (Un α) :=
   | none => none
 
 /-- feed a list of `(item, weight)` to the gadget with the given mark -/
-def feed (mark : Bool) : List (Int × α) → Sk α → Draws α → Option (Sk α × Draws α)
+def feed (T : Tunables) (mark : Bool) : List (Int × α) → Sk α → Draws α → Option (Sk α × Draws α)
   | [], g, ds => some (g, ds)
   | (x, w) :: t, g, ds =>
-    match update g x w mark ds with
-    | some (g1, ds1) => feed mark t g1 ds1
+    match update T g x w mark ds with
+    | some (g1, ds1) => feed T mark t g1 ds1
     | none => none
 
 /-- `merge_items(sketch)`: H items unmarked with their weights, R items marked with corrected weights -/
-def mergeItems (u : Un α) (sk : Sk α) (ds : Draws α) : Option (Un α × Draws α) :=
+def mergeItems (T : Tunables) (u : Un α) (sk : Sk α) (ds : Draws α) : Option (Un α × Draws α) :=
   if sk.n == 0 then some (u, ds) else
-  match feed false (sk.H.map (fun e => (e.item, e.wt))) u.gadget ds with
+  match feed T false (sk.H.map (fun e => (e.item, e.wt))) u.gadget ds with
   | none => none
   | some (g1, ds1) =>
-    match feed true sk.rSamplesCorrected g1 ds1 with
+    match feed T true sk.rSamplesCorrected g1 ds1 with
     | none => none
     | some (g2, ds2) => some ({ u with n := u.n + sk.n, gadget := g2 }, ds2)
 
@@ -55,8 +55,8 @@ def resolveTau (u : Un α) (sk : Sk α) : Un α :=
   else u
 
 /-- `update(sketch)` -/
-def Un.update (u : Un α) (sk : Sk α) (ds : Draws α) : Option (Un α × Draws α) :=
-  match mergeItems u sk ds with
+def Un.update (T : Tunables) (u : Un α) (sk : Sk α) (ds : Draws α) : Option (Un α × Draws α) :=
+  match mergeItems T u sk ds with
   | some (u1, ds1) => some (resolveTau u1 sk, ds1)
   | none => none
 
@@ -68,16 +68,19 @@ def existUnmarkedLighter (g : Sk α) (threshold : Option α) : Bool :=
   | some t => g.H.any (fun e => Num.lt e.wt t && !e.mark)
 
 /-- `mark_moving_gadget_coercer`: marked H items of the gadget become the R region of the result (filled from
-    the back), unmarked ones stay in H in array order (NOT re-heapified) -/
+    the back), unmarked ones stay in H in array order (re-heapified only in the repaired shape `T.coercerHeapify`) -/
 def markMovingCoercer (T : Tunables) (u : Un α) (sk : Sk α) : Option (Sk α) :=
   let g := u.gadget
   let resultK := g.H.length + g.R.length
   let marked := g.H.filter (·.mark)
   let unmarked := g.H.filter (fun e => !e.mark)
   let transferred := marked.foldl (fun acc e => Num.add acc e.wt) (Num.zero : α)
-  if Num.lt (Num.ofFrac T.tolNum T.tolDen : α) (Num.abs (Num.sub transferred u.outerTauNumer)) then none else
+  let tol : α := if T.coercerRelTol then Num.mul (Num.ofFrac T.tolNum T.tolDen) (Num.abs u.outerTauNumer)
+                 else Num.ofFrac T.tolNum T.tolDen
+  if Num.lt tol (Num.abs (Num.sub transferred u.outerTauNumer)) then none else
+  let h' := unmarked.map (fun e => { e with mark := false })
   some { sk with k := resultK, n := u.n,
-                 H := unmarked.map (fun e => { e with mark := false }), M := [],
+                 H := if T.coercerHeapify then convertToHeap h' else h', M := [],
                  R := (g.R ++ marked.map (·.item)).reverse,
                  totalWtR := Num.add g.totalWtR transferred,
                  gadget := false, numMarksInH := 0, alloc := resultK + 1 }
@@ -89,16 +92,16 @@ def pseudoExact (T : Tunables) (u : Un α) (sk : Sk α) : Option (Option (Sk α)
   let c2 := g.numMarksInH > 0
   let c3 := g.numMarksInH == u.outerTauDenom
   if !(c1 && c2 && c3) then none
-  else if existUnmarkedLighter g g.tau then none
+  else if existUnmarkedLighter g (if T.coercerOuterTau then some u.outerTau else g.tau) then none
   else some (markMovingCoercer T u sk)
 
 /-- the `while (num_marks_in_h_ > 0) decrease_k_by_1()` loop -/
-def migrateLoop : Nat → Sk α → Draws α → Option (Sk α × Draws α)
+def migrateLoop (T : Tunables) : Nat → Sk α → Draws α → Option (Sk α × Draws α)
   | 0, s, ds => if s.numMarksInH > 0 then none else some (s, ds)
   | fuel + 1, s, ds =>
     if s.numMarksInH > 0 then
-      match decreaseKBy1 s ds with
-      | some (s1, ds1) => migrateLoop fuel s1 ds1
+      match decreaseKBy1 T s ds with
+      | some (s1, ds1) => migrateLoop T fuel s1 ds1
       | none => none
     else some (s, ds)
 
@@ -110,24 +113,24 @@ def tauIsZero (s : Sk α) : Bool :=
 
 /-- second half of `migrate_marked_items_by_decreasing_k`: k now equals the number of samples, so reducing k
     increases tau; keep reducing until all marked items have been absorbed into the reservoir, then strip the marks -/
-def migrateFrom (g1 : Sk α) (ds : Draws α) : Option (Sk α × Draws α) :=
-  match decreaseKBy1 g1 ds with
+def migrateFrom (T : Tunables) (g1 : Sk α) (ds : Draws α) : Option (Sk α × Draws α) :=
+  match decreaseKBy1 T g1 ds with
   | none => none
   | some (g2, ds2) =>
     if tauIsZero g2 then none else
-    match migrateLoop g2.k g2 ds2 with
+    match migrateLoop T g2.k g2 ds2 with
     | none => none
     | some (g3, ds3) => some ({ g3 with gadget := false, numMarksInH := 0,
                                         H := g3.H.map (fun e => { e with mark := false }) }, ds3)
 
 /-- `migrate_marked_items_by_decreasing_k` -/
-def migrateMarked (gcopy : Sk α) (ds : Draws α) : Option (Sk α × Draws α) :=
+def migrateMarked (T : Tunables) (gcopy : Sk α) (ds : Draws α) : Option (Sk α × Draws α) :=
   if gcopy.numMarksInH == 0 then none
   else if gcopy.R.length != 0 && gcopy.H.length + gcopy.R.length != gcopy.k then none
   else if gcopy.R.length == 0 && gcopy.H.length < gcopy.k then
     -- non-full and pseudo-exact: change k so that the copy is full
-    migrateFrom { gcopy with k := gcopy.H.length } ds
-  else migrateFrom gcopy ds
+    migrateFrom T { gcopy with k := gcopy.H.length } ds
+  else migrateFrom T gcopy ds
 
 /-- `get_result()` -/
 def Un.getResult (T : Tunables) (u : Un α) (ds : Draws α) : Option (Sk α × Draws α) :=
@@ -139,7 +142,7 @@ def Un.getResult (T : Tunables) (u : Un α) (ds : Draws α) : Option (Sk α × D
     match pseudoExact T u gcopy with
     | some (some r) => some (r, ds)
     | some none => none
-    | none => migrateMarked gcopy ds
+    | none => migrateMarked T gcopy ds
 
 /-- `deserialize(serialize(u))` as a state transformer -/
 def Un.serdeRoundTrip (T : Tunables) (u : Un α) : Option (Un α) :=
